@@ -42,7 +42,7 @@ type SendCase struct {
 	Workloads int        `json:"workloads"` // created before the call (1..4)
 	Targets   []Target   `json:"targets"`   // in call order; may repeat
 	Files     []FileSpec `json:"files"`     // rpc mode: 1-2 files; direct mode: exactly 1
-	Mode      string     `json:"mode"`      // "rpc" (Vibranium.Send over bufconn) | "direct" (Calcium.SendLargeFile)
+	Mode      string     `json:"mode"`      // "rpc" (Vibranium.Send over bufconn) | "direct" (Calcium.SendLargeFile) | "send" (Calcium.Send, the whole-file API)
 	Chunk     int        `json:"chunk"`     // direct mode chunk size
 }
 
@@ -51,7 +51,9 @@ const chunkSize = types.SendLargeFileChunkSize
 func genC29(t *rapid.T) SendCase {
 	c := SendCase{Workloads: rapid.IntRange(1, 4).Draw(t, "workloads")}
 	c.Mode = "rpc"
-	if vt.Chance(t, "direct", 40) {
+	if vt.Chance(t, "wholeFile", 25) {
+		c.Mode = "send"
+	} else if vt.Chance(t, "direct", 40) {
 		c.Mode = "direct"
 		c.Chunk = rapid.SampledFrom([]int{chunkSize, 1, 7, 512, 4096, 100}).Draw(t, "chunk")
 	}
@@ -76,7 +78,7 @@ func genC29(t *rapid.T) SendCase {
 		c.Targets = append(c.Targets, tg)
 	}
 	nf := 1
-	if c.Mode == "rpc" && vt.Chance(t, "twoFiles", 30) {
+	if c.Mode != "direct" && vt.Chance(t, "twoFiles", 30) {
 		nf = 2
 	}
 	for i := 0; i < nf; i++ {
@@ -205,6 +207,24 @@ func runC29once(x *vt.Ctx, c SendCase) (*vt.Finding, bool) {
 					break
 				}
 				out.res = append(out.res, sendResult{m.Id, m.Path, m.Error})
+			}
+		} else if c.Mode == "send" {
+			opts := &types.SendOptions{IDs: ids}
+			for _, f := range c.Files {
+				opts.Files = append(opts.Files, types.LinuxFile{Filename: f.Name, Content: f.content(), UID: f.UID, GID: f.GID, Mode: f.Mode})
+			}
+			ch, err := w.Cal.Send(ctx, opts)
+			if err != nil {
+				out.err = err
+				done <- out
+				return
+			}
+			for m := range ch {
+				e := ""
+				if m.Error != nil {
+					e = m.Error.Error()
+				}
+				out.res = append(out.res, sendResult{m.ID, m.Path, e})
 			}
 		} else {
 			f := c.Files[0]
